@@ -26,26 +26,26 @@ var Solvers = []SolverSpec{
 }
 
 type Result struct {
-	VC      *VC
-	Obl     *Obligation
-	Status  string // discharged | failed | undecided | cover-ok | cover-failed
-	Raw     string // unsat sat unknown timeout error
-	Solver  string
-	TimeS   float64
-	Output  string
-	Script  string
+	VC        *VC
+	Obl       *Obligation
+	Status    string // discharged | failed | undecided | cover-ok | cover-failed
+	Raw       string // unsat sat unknown timeout error
+	Solver    string
+	TimeS     float64
+	Output    string
+	Script    string
 	PerSolver map[string]string
-	Model   []string
+	Model     []string
 }
 
 type SolveOpts struct {
-	Dir       string // scratch directory for scripts
-	Timeout1  int    // first-stage timeout (z3-new alone)
-	Timeout2  int    // second stage (race of all)
-	Workers   int
-	Batch     bool // send obligations with a common prefix to one incremental run first
+	Dir        string // scratch directory for scripts
+	Timeout1   int    // first-stage timeout (z3-new alone)
+	Timeout2   int    // second stage (race of all)
+	Workers    int
+	Batch      bool // send obligations with a common prefix to one incremental run first
 	CrossCheck bool // run every solver to completion and report disagreement
-	Verbose   bool
+	Verbose    bool
 }
 
 func runSolver(s SolverSpec, timeoutS int, file string) (string, string, float64) {
